@@ -400,7 +400,7 @@ pub fn main(cases: Vec<fn() -> Case>) {
     let mut skipping_case = resume.is_some();
     let mut cur: Option<&Case> = None;
     let mut proj = Proj { signed: false, clusters: Vec::new() };
-    let mut names: Vec<(String, String)> = Vec::new();
+    let mut names: Vec<(String, Option<String>)> = Vec::new();
     let mut header: Vec<String> = Vec::new();
     let mut declared = false;
     let mut step = 0usize;
@@ -442,9 +442,14 @@ pub fn main(cases: Vec<fn() -> Case>) {
             _ if absent => {}
             "cl" => proj.clusters.push((t[1].parse().unwrap(), t[2].parse().unwrap(), t[3].parse().unwrap())),
             "name" => {
-                // name <ident> <cp>*
-                let s: String = t[2..].iter().filter(|x| !x.is_empty()).map(|x| char::from_u32(x.parse().unwrap()).unwrap()).collect();
-                names.push((t[1].to_string(), s));
+                // name <ident> R <cp>*   (the variant has a rename attribute with this string)
+                // name <ident> -         (it has none)
+                let ren = if t[2] == "R" {
+                    Some(t[3..].iter().filter(|x| !x.is_empty()).map(|x| char::from_u32(x.parse().unwrap()).unwrap()).collect::<String>())
+                } else {
+                    None
+                };
+                names.push((t[1].to_string(), ren));
             }
             "s" => {
                 if skipping_case {
@@ -470,16 +475,22 @@ pub fn main(cases: Vec<fn() -> Case>) {
                     let mut vs: Vec<(i64, &str)> = case.variants.iter().map(|(n, d)| (proj.model(*d), *n)).collect();
                     vs.sort();
                     let discs: Vec<String> = vs.iter().map(|(d, _)| d.to_string()).collect();
-                    let nms: Vec<String> = vs
+                    // the declaration as written: identifier and rename attribute of every variant
+                    // (what the variant's NAME is, is the specification's business: Abs!NameOf)
+                    let ids: Vec<String> = vs.iter().map(|(_, id)| cps(id)).collect();
+                    let rens: Vec<String> = vs
                         .iter()
                         .map(|(_, id)| {
-                            let nm = names.iter().find(|(i, _)| i == id).unwrap_or_else(|| panic!("rt: no name for {id}"));
-                            cps(&nm.1)
+                            let nm = names.iter().find(|(i, _)| i == id).unwrap_or_else(|| panic!("rt: no name line for {id}"));
+                            match &nm.1 {
+                                Some(r) => format!("{{\"k\":\"some\",\"s\":{}}}", cps(r)),
+                                None => "{\"k\":\"none\"}".to_string(),
+                            }
                         })
                         .collect();
                     out.w(&format!(
-                        "{{\"ev\":\"decl\",\"case\":{},\"grp\":\"{}\",\"gprop\":\"{}\",\"tmin\":{},\"tmax\":{},\"discs\":[{}],\"names\":[{}]}}\n",
-                        case.id, header[2], if header[3] == "-" { "" } else { &header[3] }, header[4], header[5], discs.join(","), nms.join(",")
+                        "{{\"ev\":\"decl\",\"case\":{},\"grp\":\"{}\",\"gprop\":\"{}\",\"tmin\":{},\"tmax\":{},\"discs\":[{}],\"idents\":[{}],\"renames\":[{}]}}\n",
+                        case.id, header[2], if header[3] == "-" { "" } else { &header[3] }, header[4], header[5], discs.join(","), ids.join(","), rens.join(",")
                     ));
                     declared = true;
                 }
